@@ -50,6 +50,30 @@ func genC05(t *rapid.T) c05Case {
 		lv.Items = append(lv.Items, m.YStr("vpath"))
 		text = y.Print(m.YOpts{})
 	}
+	// typed literals (datatype IRI written in full or through a prefix) and a validation that looks at them
+	if rapid.Bool().Draw(t, "typedLiterals") {
+		pool := []m.Lit{m.Typed("5", m.XSD+"integer"), m.Typed("25", m.XSD+"integer"), m.Typed("true", m.XSD+"boolean"), m.Typed("2020-01-01", m.XSD+"date"), m.Typed("x", m.NS+"customType")}
+		for _, n := range g.Nodes {
+			for _, l := range subset(t, pool, 0, 2, "typed") {
+				n.AddVal(m.NS+"typed", m.LV(l))
+			}
+		}
+		vm := m.YMap()
+		vm.Set("targetClass", m.YStr("ex.Test"))
+		c := m.YMap()
+		switch rapid.IntRange(0, 3).Draw(t, "typedConstraint") {
+		case 0:
+			c.Set("minInclusive", m.YInt(18))
+		case 1:
+			c.Set("in", m.YSeq(m.YInt(5), m.YStr("true")))
+		case 2:
+			c.Set("datatype", m.YStr("xsd.integer"))
+		default:
+			c.Set("maxCount", m.YInt(1))
+		}
+		vm.Set("propertyConstraints", m.YMap().Set("ex.typed", c))
+		text = appendValidation(text, "vtyped", vm)
+	}
 	return c05Case{ProfileText: text, Graph: g, A: genLDOpts(t, len(g.Nodes)), B: genLDOpts(t, len(g.Nodes))}
 }
 
@@ -119,4 +143,21 @@ func decideC05(c c05Case) ev.Verdict {
 
 func TestC05(t *testing.T) {
 	ev.Run(t, "C05", genC05, decideC05)
+}
+
+// appendValidation adds a violation-level validation to a profile text printed by the canonical printer
+// (re-parsed with yaml.v3 into the ordered tree, extended, printed again).
+func appendValidation(text, name string, v *m.Y) string {
+	y, err := m.ParseY(text)
+	if err != nil {
+		return text
+	}
+	y.Get("validations").Set(name, v)
+	lv := y.Get("violation")
+	if lv == nil {
+		lv = m.YSeq()
+		y.Set("violation", lv)
+	}
+	lv.Items = append(lv.Items, m.YStr(name))
+	return y.Print(m.YOpts{})
 }
